@@ -3,8 +3,10 @@ scripts + schedules.  Case format: see harness/batch_driver.cc."""
 from tools import vlib, shimcopy
 
 FILES = ["sdk/include/opentelemetry/sdk/trace/batch_span_processor.h", "sdk/src/trace/batch_span_processor.cc",
-         "sdk/include/opentelemetry/sdk/logs/batch_log_record_processor.h", "sdk/src/logs/batch_log_record_processor.cc"]
-EXCLUDE = ["/trace/batch_span_processor.cc", "/logs/batch_log_record_processor.cc",
+         "sdk/include/opentelemetry/sdk/logs/batch_log_record_processor.h", "sdk/src/logs/batch_log_record_processor.cc",
+         "api/include/opentelemetry/common/spin_lock_mutex.h", "sdk/include/opentelemetry/sdk/trace/simple_processor.h",
+         "sdk/include/opentelemetry/sdk/logs/simple_log_record_processor.h", "sdk/src/logs/simple_log_record_processor.cc"]
+EXCLUDE = ["/trace/batch_span_processor.cc", "/logs/batch_log_record_processor.cc", "/logs/simple_log_record_processor.cc",
            "/trace/batch_span_processor_factory.cc", "/logs/batch_log_record_processor_factory.cc"]
 DRIVER = {"srcs": ["harness/batch_driver.cc", "harness/sched/sched.h", "harness/sched/bufproxy.h", "tools/shimcopy.py"], "sdk": True}
 TRACE_MODE = True
